@@ -1010,10 +1010,15 @@ fn check_inner(line: &str, res: &str, t: &[&str], mut m: Vec<String>) -> Vec<Str
                 let mut it = parts[0][4..].split_whitespace();
                 let v = dec_value(&mut it);
                 let p = if t[0] == "ppe" { crate::ops::pofe(t[1]) } else { pof(t[1]) };
-                if nesting(&v) < 128 {
+                // (whatever the parser accepted must print to something it reads back: no guard on the nesting of the
+                // value — an accepted value nested deeper than the limit is itself a violation)
+                {
                     if !parts[2].starts_with("val ") {
                         // the class of the input, so that a recorded finding is keyed by what fails and not by a byte pattern
-                        let class = if enc_value(&v).split_whitespace().any(|tk| tk == "K2e") { " [value contains the keyword named .]" } else { "" };
+                        let text_in = unhex(t[3]);
+                        let has_nil_token = text_in.windows(3).any(|w| w == b"nil");
+                        let class = if enc_value(&v).split_whitespace().any(|tk| tk == "K2e") { " [value contains the keyword named .]" }
+                            else if d(t[1], 3) == 0 && has_nil_token && parts[2].contains("recursionLimitExceeded") && nesting(&v) <= 127 { " [nil read as the empty list at the depth limit]" } else { "" };
                         m.push(format!("FAIL C13 accepted text prints as {:?} which is rejected: {}{}", String::from_utf8_lossy(&unhex(parts[1])), parts[2], class));
                     } else {
                         let mut it2 = parts[2][4..].split_whitespace();
@@ -1243,6 +1248,15 @@ pub fn depth_main(args: &[String]) -> i32 {
             "to_value" => { let xs: Vec<u8> = (0..n).map(|i| (i % 10) as u8).collect(); let v = serde_lexpr::to_value(&xs).unwrap(); assert!(v.is_list()); std::mem::forget(v); }
             // conversions that do not build a Vec: a long list in an alist entry the target struct does not
             // know (skipped through IgnoredAny), IgnoredAny itself, and a self-describing target (untagged enum)
+            // a panic that unwinds through a frame owning a long list: the list is dropped during unwinding and the
+            // panic stays recoverable
+            "drop_unwinding" => {
+                let r = std::panic::catch_unwind(|| { let v = build(n); if n > 0 { panic!("unwind past a long list"); } std::mem::forget(v); });
+                assert!(r.is_err());
+                let t2 = text(n);
+                let r = std::panic::catch_unwind(move || { let d = lexpr::datum::from_reader(t2.as_bytes()).unwrap(); if n > 0 { panic!("unwind past a long datum"); } std::mem::forget(d); });
+                assert!(r.is_err());
+            }
             #[cfg(feature = "full")]
             "from_value_skipped" => {
                 #[derive(serde_derive::Deserialize)] struct Known { a: u8 }
